@@ -881,3 +881,54 @@ Theorem C03_reads_return_instances : forall (inp : rin) (rc : its) (l r : molg),
 Proof. exact reads_return_instances. Qed.
 Print Assumptions C03_reads_return_instances.
 
+(** ... and from the TEMPLATE in the default mode (the rule glued is [synrule tpl true]): if the template satisfies
+    [tpl_condition] (every stripped hydrogen keeps its number of bonds to the kept heavy atoms, the kept atoms keep the
+    total charge — a condition on the template alone) EVERY graph of its_list conserves every element count including
+    hydrogen and the total charge and has the substrate's composition and bonds on its reactant side: clauses (a) and (b)
+    end to end, template -> prepared rule -> matches -> (expansion) -> gluing -> _explicit_h -> list returned *)
+Theorem C03_its_list_default_mode : forall (inp : rin) (tpl rc : its) (l r : molg) (gs : list its),
+  i_rule inp = synrule tpl true -> synrule tpl true = Some (rc, l, r) ->
+  nodupb (node_ids tpl) = true -> (forall (k : N) (a : inode), In (k, a) (gnodes tpl) -> a_el (iH a) = a_el (iG a)) ->
+  simple_edgesb (gedges tpl) = true -> tpl_condition tpl ->
+  wf_hostb (i_host inp) = true -> wf_rcb rc = true ->
+  forallb (call_okb (has_XH l) (i_host inp) rc) (i_calls inp) = true ->
+  spec_its inp = Some gs ->
+  forall g : its, In g gs ->
+    (forall e : N, elem_count e (fst (its_decompose g)) = elem_count e (snd (its_decompose g))) /\
+    total_charge (fst (its_decompose g)) = total_charge (snd (its_decompose g)) /\
+    (forall e : N, elem_count e (fst (its_decompose g)) = elem_count e (mol_of_host (i_host inp))) /\
+    total_charge (fst (its_decompose g)) = total_charge (mol_of_host (i_host inp)) /\
+    (forall a b : N, In a (node_ids (i_host inp)) -> In b (node_ids (i_host inp)) -> bondG g a b = adj (i_host inp) a b).
+Proof. exact its_list_default_mode. Qed.
+Print Assumptions C03_its_list_default_mode.
+
+(** ... and with the MATCHER'S CONTRACT as hypothesis instead of [match_rcb]: the reactor hands the rule's left graph l to
+    SubgraphSearchEngine, whose answers satisfy [match_okb] on the pattern they were asked for (property C06).
+    [matcher_hyps_okb] (proof/C03_ReactorSpec.v) = inputs well formed, every bond of rc joins two atoms of rc, l is the
+    reactant side of rc as far as matching is concerned ([left_of_rcb]: same number of atoms, every rc atom is an l atom
+    with the same element / charge / hydrogen count, every reactant-side bond of rc is a bond of l — evaluated on EVERY
+    correspondence case through [rule_link_okb], and true by construction in the implicit-template mode), and the matcher's
+    answers satisfy [match_okb] on l (direct route: the kept mapping on the substrate; expanded route: every re-match on
+    the well-formed hydrogen-expanded substrate; evaluated per mapping in the ordinary observable and as one boolean on
+    every scripted case). *)
+Theorem C03_its_list_instances_matcher : forall (inp : rin) (rc : its) (l r : molg) (gs : list its),
+  i_rule inp = Some (rc, l, r) ->
+  wf_hostb (i_host inp) = true -> wf_rcb rc = true -> edges_closedb rc = true -> left_of_rcb rc l = true ->
+  forallb (call_okm (i_host inp) l) (i_calls inp) = true ->
+  spec_its inp = Some gs ->
+  forall g : its, In g gs -> instance_of (i_host inp) rc g.
+Proof.
+  intros inp rc l r gs Er H1 H2 H3 H4 H5. apply (its_list_sound_matcher inp rc l r gs Er).
+  rewrite Er. unfold matcher_hyps_okb. rewrite H1, H2, H3, H4, H5. reflexivity.
+Qed.
+Print Assumptions C03_its_list_instances_matcher.
+
+Theorem C03_match_link_left : forall (host : hostg) (rc : its) (l : molg) (m : mapping),
+  edges_closedb rc = true -> left_of_rcb rc l = true -> match_okb host l m = true -> match_rcb host rc m = true.
+Proof. exact match_okb_left. Qed.
+Print Assumptions C03_match_link_left.
+
+Theorem C03_left_of_rcb_implicit : forall tpl : its, NoDup (node_ids tpl) -> left_of_rcb tpl (fst (its_decompose tpl)) = true.
+Proof. exact left_of_rcb_dec. Qed.
+Print Assumptions C03_left_of_rcb_implicit.
+
